@@ -39,7 +39,8 @@ InvNow == [AckedSurvive |-> AckedSurvive, AckedDurable |-> AckedDurable,
            CommittedUnique |-> CommittedUnique, AckSound |-> AckSound, HeadTruthful |-> HeadTruthful,
            FencedTerm |-> FencedTerm, OneLeaderPerTerm |-> OneLeaderPerTerm,
            NoTermAboveCoordinator |-> NoTermAboveCoordinator, DbIsLogPrefix |-> DbIsLogPrefix,
-           DurableNotAheadOfLog |-> DurableNotAheadOfLog, CommitLeHead |-> CommitLeHead]
+           DurableNotAheadOfLog |-> DurableNotAheadOfLog, CommitLeHead |-> CommitLeHead,
+           QuiescentCommitted |-> QuiescentCommitted]
 Proj == [nodes |-> [n \in Nodes |-> PNode(n)], streams |-> PStreams,
          acked |-> {[off |-> w.off, t |-> w.t] : w \in acked'}, kf |-> kf', inv |-> InvNow']
 
